@@ -1,21 +1,49 @@
 #!/usr/bin/env python3
-"""tools/matrix.py [patch...] — runs all claimed checks against every patch of /verif/mutants (on scratch copies) and
-writes /verif/mutants/CORPUS.json: patch -> properties whose check reports a violation (+ rule ids)."""
-import glob, json, os, sys
+"""tools/matrix.py [-j N] [patch...] — runs all claimed checks against every patch of /verif/mutants (on scratch copies)
+and writes /verif/mutants/CORPUS.json: patch -> properties whose check reports a violation (+ rule ids).
+Corpus maintenance only (not a registered check); run with SCRATCH_FROM_HEAD=1 and redirect the output to a file."""
+import glob, json, os, subprocess, sys, tempfile
 sys.path.insert(0, '/verif/rules')
-import scratch
+os.environ.setdefault('SIMLINT_FACTS_KEEP', '400')
+args = sys.argv[1:]
+jobs = 1
+worker_out = None
+if args[:1] == ['-j']:
+    jobs = int(args[1]); args = args[2:]
+if args[:1] == ['--worker-out']:
+    worker_out = args[1]; args = args[2:]
 props = [c['property_id'] for c in json.load(open('/verif/MANIFEST.json'))['checks']]
-patches = [os.path.abspath(x) for x in sys.argv[1:]] or sorted(glob.glob('/verif/mutants/*.patch'))
+patches = [os.path.abspath(x) for x in args] or sorted(glob.glob('/verif/mutants/*.patch'))
 path = '/verif/mutants/CORPUS.json'
-corpus = json.load(open(path)) if os.path.exists(path) else {}
+if jobs > 1:
+    tmp = tempfile.mkdtemp(prefix='matrix-')
+    procs = []
+    for i in range(jobs):
+        chunk = patches[i::jobs]
+        if not chunk:
+            continue
+        env = dict(os.environ, SCRATCH_TARGET_SUFFIX='-w%d' % i)
+        out = os.path.join(tmp, 'w%d.json' % i)
+        procs.append((subprocess.Popen([sys.executable, __file__, '--worker-out', out] + chunk, env=env), out))
+    corpus = json.load(open(path)) if os.path.exists(path) else {}
+    for pr, out in procs:
+        pr.wait()
+        if os.path.exists(out):
+            corpus.update(json.load(open(out)))
+    json.dump(corpus, open(path, 'w'), indent=1, sort_keys=True)
+    sys.exit(0)
+import scratch
+corpus = {} if worker_out else (json.load(open(path)) if os.path.exists(path) else {})
+target = worker_out or path
 for p in patches:
     name = os.path.basename(p)[:-6]
     res = scratch.run_patch(p, props)
     if 'error' in res:
         corpus[name] = {'error': res['error']}
-        print(name, 'ERROR', res['error'][:100]); continue
-    hit = {k: sorted({f['rule'] for f in v}) for k, v in res.items() if v}
-    corpus[name] = {'detected_by': hit}
-    print(name, '->', hit if hit else 'SILENT')
-    json.dump(corpus, open(path, 'w'), indent=1, sort_keys=True)
-json.dump(corpus, open(path, 'w'), indent=1, sort_keys=True)
+        print(name, 'ERROR', res['error'][:100], flush=True)
+    else:
+        hit = {k: sorted({f['rule'] for f in v}) for k, v in res.items() if v}
+        corpus[name] = {'detected_by': hit}
+        print(name, '->', hit if hit else 'SILENT', flush=True)
+    json.dump(corpus, open(target, 'w'), indent=1, sort_keys=True)
+json.dump(corpus, open(target, 'w'), indent=1, sort_keys=True)
